@@ -151,6 +151,24 @@ def make_probe(desc, k):
             st = [A.Declare(V(x), A.lst(S("ab"), S("c"))), A.OpAssign("+", A.Index(V(x), I(0)), A.Index(V(x), I(1))), A.pr(V(x))]
             exp = render_nested(["abc", "c"])
         return {"stmts": st, "expect": exp, "tag": "element_concat", "what": "element += (%s)" % variant}
+    if form == "once":
+        _, variant = desc
+        c, nx = "c%d" % k, "nx%d" % k
+        pre = [A.Declare(V(c), I(0)), A.FuncStmt(nx, [], False, [A.OpAssign("+", V(c), I(1)), A.Return(A.Bin("-", V(c), I(1)))]),
+               A.Declare(V(x), A.lst(I(10), I(20), I(30)))]
+        if variant == "assign":
+            st = pre + [A.Assign(A.Index(V(x), A.call(nx)), I(9)), A.pr(V(x)), A.pr(V(c))]
+            exp = render_nested([9, 20, 30]) + ["1"]
+        elif variant == "opassign":
+            st = pre + [A.ExprStmt(A.call(nx)), A.OpAssign("+", A.Index(V(x), A.call(nx)), I(5)), A.pr(V(x)), A.pr(V(c))]
+            exp = render_nested([10, 25, 30]) + ["2"]
+        elif variant == "read":
+            st = pre + [A.pr(A.Index(V(x), A.call(nx))), A.pr(A.RangeIndex(V(x), A.call(nx), None)), A.pr(V(c))]
+            exp = ["10"] + render_nested([20, 30]) + ["2"]
+        else:
+            st = pre + [A.Assign(A.RangeIndex(V(x), A.call(nx), A.Bin("+", A.call(nx), I(1))), A.lst(I(7), I(8))), A.pr(V(x)), A.pr(V(c))]
+            exp = render_nested([7, 8, 30]) + ["2"]
+        return {"stmts": st, "expect": exp, "tag": "index_evaluated_once", "what": "index expression with a side effect (%s)" % variant}
     if form == "setstr":
         _, c = desc
         return {"stmts": [A.Declare(V(x), S("".join(c))), A.Assign(A.Index(V(x), I(0)), S("z"))], "expect": None, "tag": "set_string", "what": "string element assignment"}
@@ -250,6 +268,8 @@ def run(rep, tier):
     descs.append(("setstr", ("a", "b")))
     for variant in ("self", "other", "element_of_self", "strings"):
         descs.append(("opcat", variant))
+    for variant in ("assign", "opassign", "read", "range_assign"):
+        descs.append(("once", variant))
     wl = [c for c in lists if len(c) <= 3] + [c for c in lists if len(c) > 3][:: (4 if tier == "quick" else 1)]
     for c in wl:
         n = len(c)
